@@ -1,6 +1,7 @@
 """Cross-check of the models of pyvc/ext_C17.py against numpy: masked argmin on random masked matrices; plain matrix argmin / max / min /
 np.where; the three spellings of the pairwise-distance matrix (values over the reals, and the static float rule against what numpy computes
-in float32).
+in float32); row tests / selections / stackings of a point cloud (np.isclose / allclose, .all / .any(axis=1), P[mask], np.unique(axis=0), np.delete, np.vstack /
+np.concatenate, np.where(mask) / np.flatnonzero) against numpy on clouds around a soma 0 .. 1e5 away from the origin.
 
 Run:  /verif/.venv/bin/python tools/xcheck_ext_C17.py [cases=1000]      (exit 0 = the model agrees with numpy on every case)
 
@@ -196,6 +197,94 @@ def check_distances(cases, rng):
     return bad
 
 
+# ------------------------------------------------------------------ rows of a cloud: tests, selections, stackings
+ROW_IDIOMS = {
+    "isclose().all(axis=1), P[~mask]": "m = np.isclose(points, soma).all(axis=1)\nout = points[~m]",
+    "isclose(soma, P, rtol, atol).any(axis=1), P[mask]": "m = np.isclose(soma, points, rtol=1e-3, atol=1e-2).any(axis=1)\nout = points[m]",
+    "np.unique(P, axis=0)": "out = np.unique(points, axis=0)",
+    "np.vstack([soma[None], P])": "out = np.vstack([soma[None], points])",
+    "np.vstack([soma, P])": "out = np.vstack([soma, points])",
+    "np.concatenate([P, [soma], P[1:]])": "out = np.concatenate([points, [soma], points[1:]])",
+    "np.concatenate([soma[None, :], P], axis=0)": "out = np.concatenate([soma[None, :], points], axis=0)",
+    "np.delete(P, np.where(eq.all(axis=1))[0], axis=0)": "out = np.delete(points, np.where((points == soma).all(axis=1))[0], axis=0)",
+    "np.delete(P, mask, axis=0)": "out = np.delete(points, (points != soma).any(axis=1), axis=0)",
+    "np.delete(P, 0, axis=0)": "out = np.delete(points, 0, axis=0)",
+    "np.delete(P, -1, axis=0)": "out = np.delete(points, -1, axis=0)",
+    "squared distance to the soma > c": "keep = ((points - soma) ** 2).sum(axis=1) > 0.1\nout = points[keep]",
+    "P[np.flatnonzero(np.any(np.abs(P - soma) > c, axis=1))]": "out = points[np.flatnonzero(np.any(np.abs(points - soma) > 0.3, axis=1))]",
+    "P[1:-1]": "out = points[1:-1]",
+    "P[(P[:, 0] > soma[0]) & ~(P[:, 2] < soma[2])]": "out = points[(points[:, 0] > soma[0]) & ~(points[:, 2] < soma[2])]",
+    "P[np.where(mask)]": "out = points[np.where(np.isclose(points, soma, atol=0.05).all(axis=1))]",
+}
+
+
+def check_rows(cases, rng):
+    """every idiom on random small clouds around a soma at several distances from the origin (with points at / next to the soma and duplicate points):
+    numpy's result satisfies what the model assumes about its result, and no other (k, 3) array does.  (Thresholds are chosen away from the values the steps
+    produce: on a boundary the float64 evaluation of numpy and the exact evaluation over the reals may differ - "floats are reals" is the engine's standing assumption.)"""
+    from pyvc.interp import Frame
+    from pyvc.values import NArr
+
+    import ast as _ast
+
+    bad = done = 0
+    steps = [0.0, 0.0, 1e-9, -1e-9, 1e-6, 0.004, -0.009, 0.011, 0.04, -0.2, 0.5, 0.7, 3.0, -2.0]
+    for case in range(cases):
+        mag = rng.choice([0.0, 1.0, 1e3, 1e5])
+        soma = np.array([mag * rng.choice([-1, 1]) * rng.uniform(0.5, 1.5) for _ in range(3)])
+        n = rng.randint(1, 6)
+        P = np.array([[soma[c] + rng.choice(steps) for c in range(3)] for _ in range(n)])
+        if n > 1 and rng.random() < 0.4:
+            P[rng.randrange(n)] = P[rng.randrange(n)]
+        for name, src in ROW_IDIOMS.items():
+            try:
+                env = dict(np=np, points=P.copy(), soma=soma.copy())
+                exec(src, env)
+                want = np.asarray(env["out"], dtype=float)
+            except Exception as e:  # numpy refuses (e.g. deleting from an empty array): outside this check
+                continue
+            E = _engine()
+            fr = Frame(vars=dict(points=cloud(P), soma=NArr((3,), [frac(float(v)) for v in soma], "real")), globs=dict(np=np))
+            try:
+                for st in _ast.parse(src).body:
+                    E.exec(st, fr)
+            except Exception as e:  # noqa: BLE001
+                bad += 1
+                print("MODEL RAISES", name, type(e).__name__, e)
+                continue
+            out = fr.vars["out"]
+            k = want.shape[0]
+            same = z3.And(out.nz() == k, *[z3.Select(out.cols[c], z3.IntVal(r)) == z3.RealVal(str(frac(float(want[r, c])))) for r in range(k) for c in range(3)])
+            s1 = z3.Solver()
+            s1.add(*E.pc)
+            s1.add(same)
+            s2 = z3.Solver()
+            s2.add(*E.pc)
+            s2.add(z3.Not(same))
+            ok1, ok2 = s1.check() == z3.sat, s2.check() == z3.unsat
+            done += 1
+            if not (ok1 and ok2):
+                bad += 1
+                print("MISMATCH", name, dict(numpy_allowed=ok1, numpy_only=ok2), "soma", soma.tolist(), "points", P.tolist(), "numpy", want.tolist())
+        # np.allclose: one truth value
+        for kw in ("", ", atol=0.05", ", rtol=1e-3, atol=0.0"):
+            want = bool(eval(f"np.allclose(points, soma{kw})", dict(np=np, points=P, soma=soma)))
+            E = _engine()
+            fr = Frame(vars=dict(points=cloud(P), soma=NArr((3,), [frac(float(v)) for v in soma], "real")), globs=dict(np=np))
+            E.exec(_ast.parse(f"flag = np.allclose(points, soma{kw})").body[0], fr)
+            fz = fr.vars["flag"]
+            fz = fz.z if hasattr(fz, "z") else z3.BoolVal(bool(fz))
+            s = z3.Solver()
+            s.add(*E.pc)
+            s.add(fz != z3.BoolVal(want))
+            done += 1
+            if s.check() != z3.unsat:
+                bad += 1
+                print("MISMATCH np.allclose", kw, soma.tolist(), P.tolist(), want)
+    print(f"rows of a cloud: {done} evaluations of {len(ROW_IDIOMS)} idioms + np.allclose on {cases} clouds, mismatches: {bad}")
+    return bad
+
+
 def main():
     cases = int(sys.argv[1]) if len(sys.argv) > 1 else 1000
     rng = random.Random(17)
@@ -253,6 +342,7 @@ def main():
     print(f"masked argmin: {done} random masked matrices ({fully} fully masked), mismatches: {bad}")
     bad += check_plain(max(20, cases // 5), rng)
     bad += check_distances(max(10, cases // 20), rng)
+    bad += check_rows(max(10, cases // 25), rng)
     return 1 if bad else 0
 
 
